@@ -26,6 +26,8 @@ type c14Op struct {
 	E   int    `json:"e"`
 	B   bool   `json:"b"`
 	Es  []int  `json:"es"`
+	Dis []int  `json:"dis"`  // servers: the ones with disabled=true
+	Edit int   `json:"edit"` // servers: unrelated edits of the object (flow control / logging / another policy)
 	V   string `json:"v"` // uint64 in decimal
 }
 
@@ -33,6 +35,8 @@ type c14Case struct {
 	Kind    string  `json:"kind"`
 	Servers []int   `json:"servers"`
 	Ready   []int   `json:"ready"`
+	Disabled []int  `json:"disabled"` // servers carrying disabled=true in the spec
+	Resync  int     `json:"resync"`   // rr: after every <resync> picks, Sync again (same servers and flags), 0 = never
 	Subset  []int   `json:"subset"` // explicit upstream subset of the first policy (may be empty)
 	All     bool    `json:"all"`    // rr: use the policy without subset
 	N       int     `json:"n"`
@@ -59,15 +63,26 @@ func epID(name string) int {
 	return i - 1
 }
 
-func c14Cluster(servers []int, subset []int) *proxyv1alpha1.UpstreamCluster {
+// c14Cluster builds the UpstreamCluster object.  edit = 0: always the identical object; other values change
+// only fields that have nothing to do with the servers (flow control, logging, a policy of another name).
+func c14Cluster(servers []int, subset []int, disabled []int, edit int) *proxyv1alpha1.UpstreamCluster {
 	obj := &proxyv1alpha1.UpstreamCluster{
 		ObjectMeta: metav1.ObjectMeta{Name: "c14.test"},
 		Spec: proxyv1alpha1.UpstreamClusterSpec{
 			ClientConfig: proxyv1alpha1.ClientConfig{Insecure: true, BearerToken: []byte("t")},
 		},
 	}
+	dis := map[int]bool{}
+	for _, d := range disabled {
+		dis[d] = true
+	}
 	for _, s := range servers {
-		obj.Spec.Servers = append(obj.Spec.Servers, proxyv1alpha1.UpstreamClusterServer{Endpoint: epName(s)})
+		srv := proxyv1alpha1.UpstreamClusterServer{Endpoint: epName(s)}
+		if dis[s] {
+			t := true
+			srv.Disabled = &t
+		}
+		obj.Spec.Servers = append(obj.Spec.Servers, srv)
 	}
 	sub := []string{}
 	for _, s := range subset {
@@ -79,9 +94,25 @@ func c14Cluster(servers []int, subset []int) *proxyv1alpha1.UpstreamCluster {
 			UpstreamSubset: sub,
 		})
 	}
+	if edit%2 == 1 { // a policy for other requests comes and goes
+		obj.Spec.DispatchPolicies = append(obj.Spec.DispatchPolicies, proxyv1alpha1.DispatchPolicy{
+			Rules:                 []proxyv1alpha1.DispatchPolicyRule{{Verbs: []string{"get"}, APIGroups: []string{"*"}, Resources: []string{"others"}}},
+			FlowControlSchemaName: "other",
+		})
+	}
 	obj.Spec.DispatchPolicies = append(obj.Spec.DispatchPolicies, proxyv1alpha1.DispatchPolicy{
 		Rules: []proxyv1alpha1.DispatchPolicyRule{{Verbs: []string{"*"}, APIGroups: []string{"*"}, Resources: []string{"*"}, NonResourceURLs: []string{"*"}}},
 	})
+	if edit > 0 {
+		obj.Spec.FlowControl.Schemas = []proxyv1alpha1.FlowControlSchema{{
+			Name: "other",
+			FlowControlSchemaConfiguration: proxyv1alpha1.FlowControlSchemaConfiguration{
+				MaxRequestsInflight: &proxyv1alpha1.MaxRequestsInflightFlowControlSchema{Max: int32(10 + edit)}},
+		}}
+		if edit%3 == 0 {
+			obj.Spec.Logging.Mode = proxyv1alpha1.LogOn
+		}
+	}
 	return obj
 }
 
@@ -137,7 +168,7 @@ func names(es []int) []string {
 func runC14(raw json.RawMessage) interface{} {
 	var c c14Case
 	must(json.Unmarshal(raw, &c))
-	ci, err := clusters.CreateClusterInfo(c14Cluster(c.Servers, c.Subset), nil, "", nil)
+	ci, err := clusters.CreateClusterInfo(c14Cluster(c.Servers, c.Subset, c.Disabled, 0), nil, "", nil)
 	must(err)
 	defer ci.Stop()
 	for _, e := range c.Ready {
@@ -152,6 +183,15 @@ func runC14(raw json.RawMessage) interface{} {
 		}
 		out := make([]pickObs, 0, c.N)
 		for i := 0; i < c.N; i++ {
+			if c.Resync > 0 && i > 0 && i%c.Resync == 0 {
+				// the informer re-delivers the object, or somebody edits an unrelated field: servers and
+				// disabled flags are what they were
+				edit := 0
+				if (i/c.Resync)%2 == 0 {
+					edit = i / c.Resync
+				}
+				must(ci.Sync(c14Cluster(c.Servers, c.Subset, c.Disabled, edit)))
+			}
 			out = append(out, onePick(ci, c.All))
 		}
 		return map[string]interface{}{"picks": out}
@@ -167,7 +207,7 @@ func runC14(raw json.RawMessage) interface{} {
 				out = append(out, pickObs{R: -2, Order: []int{}})
 			case "servers":
 				servers = op.Es
-				must(ci.Sync(c14Cluster(servers, c.Subset)))
+				must(ci.Sync(c14Cluster(servers, c.Subset, op.Dis, op.Edit)))
 				out = append(out, pickObs{R: -2, Order: []int{}})
 			case "cursor":
 				clusters.VerifC14SetCursor(ci, names(op.Es), parseU64(op.V))
